@@ -162,11 +162,11 @@ Definition line_filter_clause (op : lfop) (val : string) (re_lit : option (strin
   | LFNotContains => do_like "notLike" val
   | LFRe => match re_lit with
             | Some (lit, insens) => do_like (if insens then "ilike" else "like") lit
-            | None => Eq (sql_match (Id "string") (StrV val)) (IntV 1)
+            | None => Eq (sql_match (Id "samples.string") (StrV val)) (IntV 1)   (* the stored line, as do_like reads it (repair regex-line-filter-reads-alias) *)
             end
   | LFNre => match re_lit with
              | Some (lit, insens) => do_like (if insens then "notILike" else "notLike") lit
-             | None => Eq (sql_match (Id "string") (StrV val)) (IntV 0)
+             | None => Eq (sql_match (Id "samples.string") (StrV val)) (IntV 0)
              end
   end.
 
